@@ -31,11 +31,11 @@ import (
 	"encoding/json"
 	"errors"
 	"fmt"
+	"os"
 	"reflect"
 	"regexp"
 	"sort"
 	"strconv"
-	"os"
 	"strings"
 	"sync"
 	"time"
